@@ -199,9 +199,50 @@ fn parse_modes(ctx: &mut Ctx, mon: &M, b: &[u8], wsh: bool, class: &'static str,
     }
 }
 
+/// one filter object, kept for a long trace: more than 4 GiB of payload go through the SAME
+/// ProcessedDltFilterConfig (70 000 maximum-size messages, all dropped). Whatever a filter object
+/// accumulates over its life time must not make a later call crash.
+fn long_lived_filter(ctx: &mut Ctx) {
+    let mut o = crate::gen_msg::GenOpts::near_max(&mut ctx.rng);
+    o.force_kind = Some(crate::gen_msg::PKind::Verbose);
+    let m = crate::gen_msg::gen_msg(&mut ctx.rng, &o);
+    let wsh = m.storage_header.is_some();
+    let b: Box<[u8]> = crate::refcodec::ref_encode(&m).bytes.into_boxed_slice();
+    let cfg = DltFilterConfig {
+        min_log_level: None,
+        app_ids: Some(vec!["\u{1}no".into()]),
+        ecu_ids: None,
+        context_ids: None,
+        app_id_count: 0,
+        context_id_count: 0,
+    };
+    let f: ProcessedDltFilterConfig = cfg.into();
+    let n = 70_000u32;
+    ctx.eval();
+    let res = guarded(|| {
+        let mut dropped = 0u32;
+        for _ in 0..n {
+            if let Ok((_, ParsedMessage::FilteredOut(_))) = dlt_message(&b, Some(&f), wsh) {
+                dropped += 1;
+            }
+        }
+        dropped
+    });
+    match res {
+        Err(p) => ctx.panic_violation("parse.no_panic", &p, || J::obj().set("history", format!("one filter object used for {} filtered messages of {} bytes", n, b.len())).set("input_len", b.len())),
+        Ok(d) => {
+            ctx.obs("history.long_lived_filter_object");
+            ctx.obs_n("history.long_lived_filter_object.dropped", d as u64);
+        }
+    }
+}
+
 impl Monitor for M {
     fn case(&mut self, ctx: &mut Ctx) {
         let light = ctx.light();
+        if !light && ctx.index % 25_000 == 7 {
+            long_lived_filter(ctx);
+        }
         match ctx.index % 10 {
             0 => {
                 // construct_arguments: random type lists (incl. fixed-point kinds) over random/short payloads
@@ -322,7 +363,7 @@ impl Monitor for M {
 
     fn describe(&self, ctx: &Ctx) -> J {
         super::describe(
-            "80 % message inputs (classes canonical / dialect / structure-aware mutants / truncations / 0xFFFF length-prefix attacks followed by >64 KiB of readable bytes (fixed 10 % share) / arbitrary / header-shaped), each through dlt_message in 5 mode combinations (native storage mode x {no filter, keeping filter, dropping filter, a random filter configuration per case incl. empty / duplicate / over-long ids and counts at the i64 extremes}, other storage mode), dlt_consume_msg, skip_storage_header, forward_to_next_storage_header; every returned message is re-serialised, measured, and every argument passed through len/as_bytes<BE|LE>/valid; 10 % construct_arguments with random type lists (incl. fixed-point kinds) over empty/short/long/0xFFFF-prefixed payloads in both byte orders; 10 % dlt_zero_terminated_string with sizes 0..65535 against short and long buffers. A fraction of the workers runs with a log::Log installed that formats every record, so the crate's trace!/warn! argument expressions are evaluated. distinct = (entry point + mode, input class, first operator, operator count, outcome class, >64 KiB); non-trivial = the call got past the first header bytes",
+            "80 % message inputs (classes canonical / dialect / structure-aware mutants / truncations / 0xFFFF length-prefix attacks followed by >64 KiB of readable bytes (fixed 10 % share) / arbitrary / header-shaped), each through dlt_message in 5 mode combinations (native storage mode x {no filter, keeping filter, dropping filter, a random filter configuration per case incl. empty / duplicate / over-long ids and counts at the i64 extremes}, other storage mode), dlt_consume_msg, skip_storage_header, forward_to_next_storage_header; every returned message is re-serialised, measured, and every argument passed through len/as_bytes<BE|LE>/valid; 10 % construct_arguments with random type lists (incl. fixed-point kinds) over empty/short/long/0xFFFF-prefixed payloads in both byte orders; 10 % dlt_zero_terminated_string with sizes 0..65535 against short and long buffers. Once per 25 000 cases one filter object is used for 70 000 maximum-size messages (> 4 GiB of filtered payload through one ProcessedDltFilterConfig). A fraction of the workers runs with a log::Log installed that formats every record, so the crate's trace!/warn! argument expressions are evaluated. distinct = (entry point + mode, input class, first operator, operator count, outcome class, >64 KiB); non-trivial = the call got past the first header bytes",
             &["only panics raised inside the bracketed crate calls count; a panic located in harness code is a harness error (inconclusive)"],
             &[("use.reserialised", super::scaled(ctx, 50000)), ("use.argument_ok", super::scaled(ctx, 50000)), ("outcome.nofilter.error", super::scaled(ctx, 10000)), ("outcome.drop.filtered", super::scaled(ctx, 10000)), ("cases.input_larger_than_64KiB", super::scaled(ctx, 1000)), ("construct_arguments.ok", 1000), ("construct_arguments.err", 1000)],
         )
